@@ -360,10 +360,23 @@ func concreteConfig() symCfg {
 	return symCfg{localID: 0x0a000001, localAS: 65000, remoteAS: 65001, holdSec: 90}
 }
 
+// mkPeer builds the peer through the public path (NewServer + AddPeer with options), so that harnesses see the
+// option defaults and validation the library really applies and do not depend on the constructors' signatures;
+// the peer object is then taken out of the (never served) server's registry.
 func mkPeer(c symCfg, pl Plugin) *peer {
-	o := defaultPeerOptions()
-	o.holdTime = time.Duration(c.holdSec) * time.Second
-	return newPeer(PeerConfig{RemoteAddress: netip.AddrFrom4([4]byte{192, 0, 2, 1}), LocalAS: c.localAS, RemoteAS: c.remoteAS}, c.localID, pl, o)
+	id := c.localID
+	s, err := NewServer(netip.AddrFrom4([4]byte{byte(id >> 24), byte(id >> 16), byte(id >> 8), byte(id)}))
+	if err != nil {
+		verifUnsupported("setup: NewServer refused an IPv4 router id")
+		return nil
+	}
+	remote := netip.AddrFrom4([4]byte{192, 0, 2, 1})
+	err = s.AddPeer(PeerConfig{RemoteAddress: remote, LocalAS: c.localAS, RemoteAS: c.remoteAS}, pl, WithHoldTime(c.holdSec))
+	if err != nil {
+		verifUnsupported("setup: AddPeer refused the harness configuration")
+		return nil
+	}
+	return s.peers[remote.String()]
 }
 
 // fsmInOpenSent: an FSM as sendOpenAndSetHoldTimer leaves it (conn set, 4-minute hold timer, reader started).
